@@ -94,6 +94,8 @@ class QGen:
         name = only or self.r.choice(names)
         c = COLLECTIONS[self.b][name]
         bank = self.r.choice(c["banks"])
+        if self.r.random() < 0.12:
+            bank = "prod"  # the same bank name asked for as different collection types (the store is keyed by type AND bank)
         self.occ.append({"coll": name, "bank": bank, "type": c["ctype"], "uncond": self.uncond})
         return f'{evar}.{name}("{bank}")', c["etype"]
 
